@@ -207,3 +207,32 @@ func VerifC15Alias() {
 	}
 	verifrt.Reach("c15-alias")
 }
+
+// VerifC15MultiFault: the first destination's send fails; the writer abandons the message (as
+// the reporter does) and the next message must reach every destination alone and intact.
+func VerifC15MultiFault() {
+	verifrt.AbstractBuffers()
+	t1, c1 := vTransport()
+	t2, c2 := vTransport()
+	m := &TMultiUDPTransport{transports: []thrift.TTransport{t1, t2}}
+	a := verifrt.OpaqueBytes("a", 1, 30000)
+	_, err := m.Write(a)
+	verifrt.Assert("c15.multi-fault.write-ok", err == nil)
+	which := verifrt.Choose("failing-destination", 2)
+	verifrt.SetSendFault([]*net.UDPConn{c1, c2}[which], true)
+	verifrt.Assert("c15.multi-fault.flush-reports-the-error", m.Flush() != nil)
+	verifrt.SetSendFault(c1, false)
+	verifrt.SetSendFault(c2, false)
+	vAbandon(m, &vRef{})
+	n1, n2 := verifrt.Datagrams(c1), verifrt.Datagrams(c2)
+	b := verifrt.OpaqueBytes("b", 1, 30000)
+	_, err = m.Write(b)
+	verifrt.Assert("c15.multi-fault.next-write-ok", err == nil)
+	verifrt.Assert("c15.multi-fault.next-flush-ok", m.Flush() == nil)
+	verifrt.Assert("c15.multi-fault.one-more-datagram-each", verifrt.Datagrams(c1) == n1+1 && verifrt.Datagrams(c2) == n2+1)
+	if verifrt.Datagrams(c1) == n1+1 && verifrt.Datagrams(c2) == n2+1 {
+		verifrt.Assert("c15.multi-fault.next-message-alone-and-intact", verifrt.And(
+			verifrt.DatagramEq(c1, n1, string(b)), verifrt.DatagramEq(c2, n2, string(b))))
+	}
+	verifrt.Reach("c15-multi-fault")
+}
